@@ -4,6 +4,15 @@ import json, os
 V = os.path.dirname(os.path.dirname(os.path.abspath(__file__)))
 
 CHECKS = {
+ "C01": dict(
+    technique="runtime oracle: independent reference-model dimension vectors vs observed outcome of convert and 6 predicates; cache audit",
+    text="All ordered pairs of the ~390 canonical multiplicative units are converted by the real registry and the outcome class "
+         "(number / DimensionalityError / other) compared with dimension vectors computed by an independent reader of the definition "
+         "files; predicates, compatible-unit listings, spelling variants, random compound units with symmetry/closure laws, "
+         "generated registries with truth by construction, 5 registry configurations (case-insensitive under 4 hash seeds); every "
+         "entry left in the dimensionality cache is audited. The unit-pair space is enumerated completely; compounds are sampled.",
+    note="trusts harness/refmodel.py (validated against generated files whose truth is known by construction); rational non-dyadic exponents only in the Fraction registry",
+    ref="4/C01"),
  "C20": dict(
     technique="runtime oracle: curated standards table vs real conversions (exact in Fraction registry)",
     text="Every row of an independently curated table (~250 standard values, 32 prefixes, temperature fixed points, symbols) "
